@@ -22,6 +22,11 @@ def run(run, model):
         fi, lp, mp = h
         run.do(loops.verdict_rule, model, "C01.verdict", fi, lp, mp, 2)
     run.do(common.truth_rule, model, "C01.truth")
+    # the verdict is taken on the values the body would receive (a positional-only parameter is not overridden by a
+    # keyword of the same name that only lands in **kwargs) and surfaces as the contract's error
+    from . import c05, c09
+    run.do(c05.pos_table, model, "C01.args-table", "C01.posonly")
+    run.do(c09.dispatch_table, model, "C01.error-dispatch")
     run.do(common.kind_uniform, model, "C01.kind-uniform")
     run.do(common.append_rules, model, "C01.append", which=("pre",))
     from . import c18, marker, meta
